@@ -568,6 +568,13 @@ func avx512masking(opcode string, f inst.Form) []inst.Form {
 	// Masked form has "k" operand inserted.
 	masked := f.Clone()
 	mask := inst.Operand{Type: "k", Action: inst.R}
+
+	// Gather and scatter instructions clear mask bits as elements complete, so
+	// the mask register is also written. These are the same instructions that
+	// require a mask.
+	if maskrequired[opcode] {
+		mask.Action = inst.RW
+	}
 	ops := append([]inst.Operand(nil), masked.Operands[:idx]...)
 	ops = append(ops, mask)
 	ops = append(ops, masked.Operands[idx:]...)
